@@ -49,6 +49,8 @@ def run(ctx):
     ctx.do(rule_token_domain)
     ctx.do(rule_float_literal_form)
     ctx.do(rule_path_step_kinds)
+    from .hidden_state import rule_no_hidden_state
+    ctx.do(rule_no_hidden_state, "C10.history-independence")
 
 
 def grammar_dir():
